@@ -137,7 +137,10 @@ pub fn load_known_findings(path: &str) -> Vec<KnownFinding> {
 
 fn matches_known<'a>(known: &'a [KnownFinding], i: &IssueRec) -> Option<&'a KnownFinding> {
     known.iter().find(|k| {
-        k.status == "known" && k.property == i.prop && k.rule == i.rule && (k.sig.is_empty() || i.sig.split('|').any(|s| s == k.sig))
+        k.status == "known"
+            && k.property == i.prop
+            && (k.rule == i.rule || (k.rule == "*" && !k.sig.is_empty()))
+            && (k.sig.is_empty() || k.sig.split('+').all(|want| i.sig.split('|').any(|s| s == want)))
     })
 }
 
@@ -408,8 +411,12 @@ pub fn check_main(scn: &dyn Scenario, prop_arg: &str, opts: &CheckOptions) -> i3
     let evaluations = records.len() as u64;
     let meta = scn.meta();
     let mut by_rule: BTreeMap<String, u64> = BTreeMap::new();
-    for (_, _, i) in &violations {
+    let mut examples: BTreeMap<String, Value> = BTreeMap::new();
+    let mut by_rule_sig: BTreeMap<String, u64> = BTreeMap::new();
+    for (idx, seed, i) in &violations {
         *by_rule.entry(i.rule.clone()).or_default() += 1;
+        *by_rule_sig.entry(format!("{} @ {}", i.rule, i.sig)).or_default() += 1;
+        examples.entry(format!("{} @ {}", i.rule, i.sig)).or_insert_with(|| json!({"case_index": idx, "case_seed": seed, "sig": i.sig, "message": i.msg.chars().take(400).collect::<String>()}));
     }
     let evidence = json!({
         "property_id": prop,
@@ -434,6 +441,8 @@ pub fn check_main(scn: &dyn Scenario, prop_arg: &str, opts: &CheckOptions) -> i3
             "workers": { "processes": jobs, "retired_for_arena_leak": retired, "timed_out": timed_out, "cpu_seconds": worker_wall, "arena_peak_bytes": arena_peak },
             "counters": nest(&counters),
             "violations_by_rule": by_rule,
+            "violation_examples": examples,
+            "violations_by_rule_and_signature": by_rule_sig,
             "known_findings_hit": known_hits.iter().map(|(k, v)| json!({"finding": k, "occurrences": v.0})).collect::<Vec<_>>(),
             "issues_of_other_properties_seen": other_props,
             "components": { "real": meta.components_real, "stub": meta.components_stub },
